@@ -22,6 +22,11 @@ extern "C" int deflate(z_streamp s, int flush) {
     if (flush == Z_FINISH && r == Z_OK) g_gz_finish_more++;
     return r;
 }
+// Environment deviation "short write": with g_wcap > 0 every write(2) to a descriptor above 2 transfers at most g_wcap bytes (a legal answer of
+// the operating system: pipes, signals, quotas); the writers have to resume with the rest.
+#include <sys/syscall.h>
+static size_t g_wcap = 0; static uint64_t g_short_writes = 0;
+extern "C" ssize_t write(int fd, const void* buf, size_t n) { if (g_wcap && fd > 2 && n > g_wcap) { g_short_writes++; n = g_wcap; } return syscall(SYS_write, fd, buf, n); }
 extern "C" lzma_ret lzma_code(lzma_stream* s, lzma_action act) {
     static auto real = (lzma_ret (*)(lzma_stream*, lzma_action))dlsym(RTLD_NEXT, "lzma_code"); size_t in0 = s->avail_in; lzma_ret r = real(s, act);
     if (act == LZMA_RUN && s->avail_in != 0 && s->avail_in != in0) g_xz_partial++;
@@ -63,8 +68,8 @@ static std::string payload(size_t n, int cls, unsigned salt) {
     return s;
 }
 
-struct Step { int kind; size_t size; int cls; };   // kind 0 write, 1 rotate
-static std::string steps_str(const std::vector<Step>& v) { std::string s; for (auto& x : v) s += x.kind ? "R," : "W" + std::to_string(x.size) + "c" + std::to_string(x.cls) + ","; return s; }
+struct Step { int kind; size_t size; int cls; };   // kind 0 write, 1 rotate, 2 (only as first step) short-write cap of `size` bytes for the whole sequence
+static std::string steps_str(const std::vector<Step>& v) { std::string s; for (auto& x : v) s += x.kind == 2 ? "S" + std::to_string(x.size) + "," : x.kind ? "R," : "W" + std::to_string(x.size) + "c" + std::to_string(x.cls) + ","; return s; }
 
 struct CV { std::string key, what; };
 
@@ -79,12 +84,15 @@ static void run_seq(int comp, int sink, const std::vector<Step>& steps, Result& 
         std::unique_ptr<BaseCborOutputWriter> w; std::string n0 = newname();
         if (sink == 0) { if (comp == 1) w.reset(new GzipCborOutputWriter(n0)); else w.reset(new XzCborOutputWriter(n0)); }
         else { int fd = opensink(n0); if (comp == 1) w.reset(new GzipCborOutputWriter(fd)); else w.reset(new XzCborOutputWriter(fd)); }
-        unsigned salt = 0;
+        unsigned salt = 0; uint64_t sw0 = g_short_writes;
+        struct CapGuard { ~CapGuard() { g_wcap = 0; } } capguard;
         for (auto& st : steps) {
+            if (st.kind == 2) { g_wcap = st.size; continue; }
             if (st.kind == 0) { std::string p = payload(st.size, st.cls, salt++); w->write(p.data(), p.size()); expect.back() += p; }
             else { std::string n = newname(); if (sink == 0) w->rotate_output(boost::any(n)); else w->rotate_output(boost::any(opensink(n))); expect.emplace_back(); }
             R.count("transitions");
         }
+        w.reset(); g_wcap = 0; R.count("short_writes", g_short_writes - sw0);
     }
     R.count("gz_partial_input_passes", g_gz_partial - c0[0]); R.count("gz_finish_multipass", g_gz_finish_more - c0[1]); R.count("xz_partial_input_passes", g_xz_partial - c0[2]); R.count("xz_finish_multipass", g_xz_finish_more - c0[3]); R.count("gz_output_only_passes", g_gz_nothing - c0[4]);
     for (size_t i = 0; i < names.size(); i++) {
@@ -128,7 +136,7 @@ int main(int argc, char** argv) {
     auto done = [&](int rc) { a.finish(total); rm_rf(g_dir); return rc; };
     auto parse = [](const std::string& s, int& comp, int& sink, std::vector<Step>& st) {
         if (sscanf(s.c_str(), "comp=%d;sink=%d;", &comp, &sink) != 2) return false; size_t p = s.find("steps="); if (p == std::string::npos) return false; p += 6;
-        while (p < s.size()) { if (s[p] == 'R') { st.push_back({1, 0, 0}); p += 2; } else if (s[p] == 'W') { size_t sz; int c; if (sscanf(s.c_str() + p, "W%zuc%d,", &sz, &c) != 2) return false; st.push_back({0, sz, c}); p = s.find(',', p) + 1; } else break; } return true; };
+        while (p < s.size()) { if (s[p] == 'R') { st.push_back({1, 0, 0}); p += 2; } else if (s[p] == 'S') { st.push_back({2, (size_t)strtoull(s.c_str() + p + 1, nullptr, 10), 0}); p = s.find(',', p) + 1; } else if (s[p] == 'W') { size_t sz; int c; if (sscanf(s.c_str() + p, "W%zuc%d,", &sz, &c) != 2) return false; st.push_back({0, sz, c}); p = s.find(',', p) + 1; } else break; } return true; };
     auto emit_dir = a.kv.count("emit") ? a.kv["emit"] : std::string();
     if (!a.replay.empty() && slurp(a.replay).find("export=") != std::string::npos) { std::string s = slurp(a.replay); s = s.substr(s.find("export=")); int comp, sink, n, kind; if (sscanf(s.c_str(), "export=1;comp=%d;sink=%d;n=%d;kind=%d", &comp, &sink, &n, &kind) != 4) return done(2);
         Pool rp(1, 900); rp.run(1, [&](uint64_t, Result& R) { std::vector<CV> out; run_export(comp, sink, n, kind, R, out); for (auto& v : out) R.violation("comp|" + v.key, v.what, s); },
@@ -159,6 +167,9 @@ int main(int argc, char** argv) {
       std::vector<size_t> mchunks = T ? std::vector<size_t>{100, 1000, 2040, 2049, 3000, 5000, 7000, 10000, 12000} : std::vector<size_t>{3000, 7000, 10000};
       for (int comp = 1; comp <= 2; comp++) for (int sink = 0; sink < 2; sink++) for (size_t c : mchunks) { size_t tb = (T && comp == 1) ? (4u << 20) : total_bytes; if (!T && comp == 2 && c != 7000) continue;
           std::vector<Step> st; for (size_t done_ = 0; done_ < tb; done_ += c) st.push_back({0, std::min(c, tb - done_), 4}); tasks.push_back({comp, sink, st, false}); }
+      // short writes: every write(2) of the sequence transfers at most `cap` bytes
+      for (int comp = 1; comp <= 2; comp++) for (int sink = 0; sink < 2; sink++) for (size_t cap : T ? std::vector<size_t>{1, 7, 1000, 4096, 65536} : std::vector<size_t>{7, 4096}) {
+          tasks.push_back({comp, sink, {{2, cap, 0}, {0, 65536, 2}}, false}); tasks.push_back({comp, sink, {{2, cap, 0}, {0, 2049, 1}, {1, 0, 0}, {0, 65536, 4}, {0, 1, 0}, {1, 0, 0}, {0, 300000, 2}}, false}); }
       // end to end through the exporter (chunks of 2040..2048 bytes as the encoder flushes them)
       for (int comp = 1; comp <= 2; comp++) for (int sink = 0; sink < 2; sink++) for (int kind = 0; kind < 3; kind++) { if (!T && (kind == 1 || (comp == 2 && sink == 1))) continue; Task t{comp, sink, {}, false}; t.exp_n = T ? 60000 : 25000; t.exp_kind = kind; tasks.push_back(t); } }
     Pool pool(a.jobs, 900);
